@@ -120,6 +120,32 @@ class Ctx:
         return self.program.func(rel, qualname)
 
 
+def norm_locals(node: Any, scope) -> str:
+    """Normalised text of an AST node with the local variable names of *scope*
+    (and of its nested functions) replaced by `_`: keys built from it survive
+    renaming of locals."""
+    import copy
+    if not isinstance(node, ast.AST):
+        return norm(node)
+    names = set(getattr(scope, 'locals', ()))
+    for ch in getattr(scope, 'children', []):
+        names |= set(getattr(ch, 'locals', ()))
+    names -= {'self', 'cls'}
+
+    def rebuild(n):
+        if isinstance(n, list):
+            return [rebuild(x) for x in n]
+        if not isinstance(n, ast.AST):
+            return n
+        if isinstance(n, ast.Name) and n.id in names:
+            return ast.Name(id='_', ctx=n.ctx)
+        new = type(n)()
+        for f, v in ast.iter_fields(n):
+            setattr(new, f, rebuild(v))
+        return new
+    return norm(rebuild(node))
+
+
 def construct_key(scope_qualname: str, *nodes: Any) -> str:
     return scope_qualname + ' :: ' + ' ; '.join(norm(n) for n in nodes)
 
